@@ -281,8 +281,11 @@ def run_stop(case):
                 leaf = rng.choice(lv)
                 t = ('tok', cycle, s, ((leaf[1], 'poison' if leaf[3] else 'fail', None),) if s % 2 else ())
                 SH.POISONERS.setdefault(leaf[1], set()).add((cycle, s)) if (s % 2 and leaf[3]) else None
+                unroutable = s % 5 == 2 and SH.has_switch(tree)
+                if unroutable:
+                    t = ('tok', cycle, s, (('SW', 'unroutable' if s == 2 else 'badindex', None),))  # the user's switch() fails for this input
                 try:
-                    y = server.call(t, timeout=30, backpressure=False)
+                    y = server.call(t, timeout=8 if unroutable else 30, backpressure=False)
                 except BaseException as e:  # noqa: BLE001
                     y = e
                 res.append((t, y))
@@ -321,9 +324,12 @@ def run_stop(case):
                         SH.POISONERS.setdefault(leaf[1], set()).add((cycle, s))
                 if wl == 'timeouts':
                     plan = ((lv[0][1], 'sleep', 0.02),)
+                unroutable = wl == 'failures' and s % 5 == 2 and SH.has_switch(tree)
+                if unroutable:
+                    plan = (('SW', 'unroutable' if s == 2 else 'badindex', None),)
                 t = ('tok', cycle, s, plan)
                 try:
-                    y = await server.call(t, timeout=0.002 if wl == 'timeouts' else 30, backpressure=False)
+                    y = await server.call(t, timeout=0.002 if wl == 'timeouts' else (8 if unroutable else 30), backpressure=False)
                 except Exception as e:  # noqa: BLE001
                     y = e
                 if wl != 'timeouts':
